@@ -79,7 +79,48 @@ def cases(tier, seed):
                 extra.append(e)
     for a in shapes[:-2] + extra:
         specs.append({"id": "jin:%s" % al.expr_id(a), "A": a, "Js": curve_srcs})
+    # curved tier: simple curved shapes (both orientations) against each other; the reference subset
+    # relation is decided by dense exact sampling of both boundaries
+    cq = ["ilens", "bulgesq", "c6", "tinysq", "c16", "c8s", "outsq", "fsq", "lens"]
+    cshapes = [["L", "Q." + q] for q in cq] + [["L", "Q." + q + "@cw"] for q in ("ilens", "c6", "c16", "bulgesq")]
+    for a in cshapes:
+        specs.append({"id": "cin:%s" % al.expr_id(a), "A": a, "Bs": cshapes, "curved": True, "cost": 5})
     return specs
+
+
+def subset_ref_curved(ra, rb):
+    """rb subset of cl(ra) for SIMPLE curved regions, by sampling: every sampled point of
+    the boundary of B is IN or ON A, no sampled point of the boundary of A is strictly IN B,
+    and (orientation) one interior witness.  None when a sample is too close to call."""
+    import itertools
+
+    ca, cb = ra.curves()[0], rb.curves()[0]
+    size = max(ca.size(), cb.size())
+    for sg in cb.segs:
+        for k in range(33):
+            q = rg.bez_eval(sg, F(k, 32))
+            v = ra.contains(q, size / 10**7)
+            if v == rg.OUT:
+                return False
+    for sg in ca.segs:
+        for k in range(33):
+            q = rg.bez_eval(sg, F(k, 32))
+            if rb.contains(q, size / 10**7) == rg.IN:
+                return False
+    # the boundaries are compatible with B inside A: decide with interior witnesses of B
+    bx = cb.box()
+    wits = []
+    for i in range(1, 16):
+        for j in range(1, 16):
+            w = (bx[0] + (bx[2] - bx[0]) * F(i, 16) + size / 9973, bx[1] + (bx[3] - bx[1]) * F(j, 16) + size / 9967)
+            if rb.contains(w, size / 10**7) == rg.IN and not cb.near(w, size / 1000) and not ca.near(w, size / 1000):
+                wits.append(w)
+    if cb.area() < 0:  # B unbounded: far points belong to it
+        ax = ca.box()
+        wits.append((max(bx[2], ax[2]) + 10 * size, max(bx[3], ax[3]) + 7 * size))
+    if not wits:
+        return None
+    return all(ra.contains(w, size / 10**7) != rg.OUT for w in wits[:60])
 
 
 def subset_ref(ra, rb, curves):
@@ -140,7 +181,13 @@ def check_pair(ea, eb, hist, viols, nontrivial):
     pid = "%s in %s" % (al.expr_id(eb), al.expr_id(ea))
     ra, rb = al.model_eval(ea), al.model_eval(eb)
     curves = ra.curves() + rb.curves()
-    expect = subset_ref(ra, rb, curves)
+    if all(c.is_poly for c in curves):
+        expect = subset_ref(ra, rb, curves)
+    else:
+        expect = subset_ref_curved(ra, rb)
+        if expect is None:
+            hist["curved-undecided"] = hist.get("curved-undecided", 0) + 1
+            return
     A, B = al.lib_eval(ea), al.lib_eval(eb)
     st, got = call_limited(lambda: B in A, 60)
     hist["expect:%s" % expect] = hist.get("expect:%s" % expect, 0) + 1
@@ -155,7 +202,7 @@ def check_pair(ea, eb, hist, viols, nontrivial):
     if bool(got) != expect:
         viols.append({"case_id": pid + " :: subset", "what": "`B in A` is %r but region B is%s a subset of cl(A)" % (got, "" if expect else " not"), "replay": rep})
         return
-    if expect and rg.kind_of(A) not in ("EmptyShape", "WholeShape") and rg.kind_of(B) not in ("EmptyShape", "WholeShape"):
+    if expect and all(c.is_poly for c in curves) and rg.kind_of(A) not in ("EmptyShape", "WholeShape") and rg.kind_of(B) not in ("EmptyShape", "WholeShape"):
         # consequences on fresh objects
         A2, B2 = al.lib_eval(ea), al.lib_eval(eb)
         st, U = call_limited(lambda: A2 | B2, 60)
